@@ -19,6 +19,9 @@ elif [[ "$PATCH" != none ]]; then
 fi
 PVVERIF_REPO="$W/repo" PVVERIF_OUT="$W/out" VERIF_SEED=$SEED "$VERIF/check" "$ID" --tier "$TIER" > "$W/log" 2>&1
 RC=$?
+if [ -n "${KEEP_REPLAY:-}" ] && [ $RC = 1 ]; then
+  mkdir -p "$KEEP_REPLAY"; for f in "$W"/out/replays/*.json; do cp "$f" "$KEEP_REPLAY/${KEEP_NAME:-$(basename "$PATCH" .diff)}.json"; done
+fi
 grep -E "VIOLATION|message|KNOWN-FINDING|HARNESS" "$W/log" | head -5
 echo "mutant=$(basename "$PATCH") check=$ID tier=$TIER seed=$SEED exit=$RC"
 exit $RC
